@@ -1,7 +1,6 @@
 # Claimed properties and not-applicable ones (executed by gen_manifest.py).
 for _i in range(1, 21):
     na("C%02d" % _i, "check not built yet (see DESIGN.md section 4 for the planned static rules)")
-na("C18", "reply equality with a reference Redis model over arbitrary command programs is an input/output fact of data-structure code; no clause of it is a shape of the code that a sound static rule in reach decides (DESIGN.md section 6)")
 
 ASSUME = "Trusted base: go/types, x/tools go/ssa + VTA call graph (v0.29.0), and the rule implementations in /verif/checker. Decides the named structural clauses (necessary conditions), not the runtime behaviour; idioms outside the enumerated lists are reported as undecided and fail."
 
@@ -92,6 +91,12 @@ claim("C12", "other",
       "Narrow claim (necessary conditions only): the INCR/DECR counter addition and the DECRBY negation are guarded by rejecting comparisons against math.MaxInt/MinInt and a non-integer stored value is rejected before use; the GETRANGE/SUBSTR slice is proven in range for every length/start/end by the inequality prover; CONFIG SET/GET agree on map, key and reply order; ZREVRANGE/ZREVRANGEBYSCORE reverse by 2 exactly on the WITHSCORES edge; the derived commands call the primitives as the oracle table says (operands, order, sign, concatenation order, request-ordered iteration, mirrored ZREVRANGE indexes, swapped bounds and exclusive markers). Reply-value equality with Redis (clamping values, HKEYS/HVALS pairing, LIMIT under reversal) is not decided.",
       ASSUME + " Primitive handler operations behave like Redis (granted by the property).",
       "dominating overflow-guard check + ABCD-lite bounds proof + symbolic signature comparison on SSA", "DESIGN.md 4 C12")
+
+
+claim("C18", "other",
+      "Narrow claim — structural necessary conditions only: stored client data leaves the example handlers only through binary-safe reply constructors (the status-reply constructor is called with constants only), so values come back byte-for-byte whatever bytes they contain; a rename that stores under the new name and deletes the old one deletes first or tests the names for equality (renaming a key onto itself keeps it); SET and HSET store the very value parameter they were given. Reply equality with a reference Redis model over command programs (orders, counts, duplicate suppression) is a value property of the data-structure code and is not decided.",
+      ASSUME + " Everything about container contents and orders is undecided.",
+      "taint-style constructor-argument check + ordering/guard check + value-identity check on SSA", "DESIGN.md 6 / 8.3")
 
 for _k in list(CLAIMS):
     NA.pop(_k, None)
